@@ -34,20 +34,15 @@ vlib.bootstrap()
 from checks import _c06_gen as G  # noqa: E402
 
 PROP = "C06"
-ALARM_S = float(os.environ.get("C06_ALARM_S", "3"))
-CONFIRM_TIMEOUT_S = float(os.environ.get("C06_CONFIRM_S", "8"))
 
 K_DIGIT = "C06:step-name-digit-suffix-attributeerror"
 K_COLLIDE = "C06:dedup-name-collision-componentexists"
 K_HANG = "C06:reference-stops-at-workflow-hang"
 
 
-class CaseTimeout(BaseException):
-    pass
+from checks import _c06_watchdog as WD  # noqa: E402
 
-
-def _on_alarm(signum, frame):
-    raise CaseTimeout()
+CaseTimeout = WD.CaseTimeout
 
 
 # --------------------------------------------------------------------------- observation (real code)
@@ -128,45 +123,8 @@ def warmup():
 
 
 def observe_guarded(doc, w=None):
-    """observe() under the in-process alarm; on alarm re-run in up to 3 fresh processes.
-    -> outcome; status 'hang' only when all 3 fresh processes exceeded their time-out too."""
-    signal.signal(signal.SIGALRM, _on_alarm)
-    signal.setitimer(signal.ITIMER_REAL, ALARM_S)
-    try:
-        out = observe(doc)
-        signal.setitimer(signal.ITIMER_REAL, 0)
-        return out
-    except CaseTimeout:
-        signal.setitimer(signal.ITIMER_REAL, 0)
-        stack = "".join(traceback.format_exc().splitlines(True)[-8:])
-    finally:
-        signal.setitimer(signal.ITIMER_REAL, 0)
-    if w is not None:
-        w.count("watchdog_alarm")
-    d = vlib.mkscratch("c06case")
-    cp = os.path.join(d, "case.json")
-    with open(cp, "w") as f:
-        json.dump(doc, f)
-    timeouts = 0
-    for attempt in range(3):
-        op = os.path.join(d, "out%d.json" % attempt)
-        try:
-            subprocess.run([vlib.PYTHON, "-W", "ignore", "-m", "checks.C06", "--one", cp, op], cwd=vlib.VERIF_ROOT,
-                           env=vlib.child_env(), timeout=CONFIRM_TIMEOUT_S, stdout=subprocess.DEVNULL,
-                           stderr=subprocess.DEVNULL)
-        except subprocess.TimeoutExpired:
-            timeouts += 1
-            continue
-        if os.path.exists(op):
-            with open(op) as f:
-                out = json.load(f)
-            if w is not None:
-                w.count("watchdog_alarm_not_reproduced")
-            return out
-    if timeouts == 3:
-        m = re.findall(r'File "[^"]*/([^/"]+)", line (\d+), in (\w+)', stack)
-        return {"status": "hang", "reproduced": 3, "where": ["%s:%s %s" % x for x in m][-4:]}
-    return {"status": "unknown", "why": "watchdog fired, confirmation runs neither finished nor all timed out"}
+    """observe() under the per-case watchdog (see _c06_watchdog)"""
+    return WD.guarded("checks.C06", doc, observe, w)
 
 
 # --------------------------------------------------------------------------- oracle
@@ -490,7 +448,7 @@ def run_job(job, w):
             ms = ms[: job["mutants_per_doc"]]
         for m in ms:
             if m["mutation"] in HANG_PRONE and hang_budget is not None:
-                if hangs_seen.get(m["mutation"], 0) >= hang_budget:
+                if hangs_seen.get(m["mutation"], 0) >= hang_budget.get(m["mutation"], 0):
                     w.count("mutant_skipped_known_hang_class")
                     continue
                 hangs_seen[m["mutation"]] = hangs_seen.get(m["mutation"], 0) + 1
@@ -585,7 +543,9 @@ def main():
     for j in range(n_jobs):
         jobs.append({"start": j, "stride": n_jobs, "count": per, "tier": c.tier,
                      "mutants_per_doc": 3 if thorough else 0, "p_hazard": 0.5,
-                     "hang_budget": 1 if j < 2 else 0})
+                     # while the hang is a listed known finding only 4 jobs re-observe it (one kind each):
+                     # every confirmation costs ~35 CPU-s
+                     "hang_budget": {HANG_PRONE[j % 2]: 1} if j < 4 else {}})
     vlib.fanout("checks.C06", jobs, c, timeout=1500 if thorough else 400,
                 env={"PYTHONWARNINGS": "ignore::SyntaxWarning"})
     c.floor("positive_cases", 10000 if thorough else 400)
